@@ -368,6 +368,13 @@ def check_C18(tier, seed):
     r = run_mc("MC_History.tla", "MC_History.cfg", workers=8)
     rep.add_mc("MC_History(2 callers x 7 phases)", r, "every interleaving at phase granularity; Pure and NoSharedState")
     rep.add_selftest("MC_History_mut(Leak=5)", run_mc("MC_History.tla", "MC_History_mut.cfg", workers=4, expect_violation=True))
+    # the type walk in front of the struct phase at recursion-step granularity (state touched INSIDE a phase): specification, the mutant with a
+    # process-wide depth counter, and the same mutant with too little parallelism to show (why the barrier groups below use 16 threads)
+    rf = run_mc("HistoryFine.tla", "MC_HistoryFine.cfg", workers=2, tag="hfine")
+    rep.add_mc("HistoryFine(3 callers x depth 3)", rf, "every interleaving of single recursion steps; Pure, CounterIsSum, termination under weak fairness")
+    rep.add_selftest("MC_HistoryFine_mut(SharedCounter: guard on a process-wide depth)", run_mc("HistoryFine.tla", "MC_HistoryFine_mut.cfg", workers=2, expect_violation=True, tag="hfine_mut"))
+    rep.add_mc("HistoryFine(SharedCounter, 2 callers x depth 3 <= limit 6)", run_mc("HistoryFine.tla", "MC_HistoryFine_two.cfg", workers=2, tag="hfine_two"),
+               "with Callers * Depth <= Limit the shared guard cannot be observed: the parallelism an experiment needs")
     scheds = sorted(set(tuple(c["schedule"]) for c in r.cases))
     rng.shuffle(scheds)
     nsh = 40 if quick else 160
